@@ -348,13 +348,18 @@ def check_one(args, data, mode, size, kind, cls, mutated, variant='hooks', paren
             'env': sorted(env or {})}
     counters = {'input_bytes': len(data), 'mutated': mutated}
     c = crashmod.classify(res)
-    if c is not None and c['kind'] == 'timeout' and '--side-by-side' in args:
-        # wrapping a line into n rows costs O(n^2) (every row re-segments the rest of the line): a line that is tens of
-        # thousands of columns wide after tab expansion is finite but takes minutes; decided on the input, not on the clock
-        tabw = int(args[args.index('--tabs') + 1]) if '--tabs' in args and args[args.index('--tabs') + 1].isdigit() else 8
+    if c is not None and c['kind'] == 'timeout':
+        tabw = min(int(args[args.index('--tabs') + 1]), 255) if '--tabs' in args and args[args.index('--tabs') + 1].isdigit() else 8
         widest = max((len(l) + (tabw - 1) * l.count(b'\t') for l in data.split(b'\n')), default=0)
-        if widest > 20000:
+        if '--side-by-side' in args and widest > 20000:
+            # wrapping a line into n rows costs O(n^2) (every row re-segments the rest of the line): a line that is tens of
+            # thousands of columns wide after tab expansion is finite but takes minutes; decided on the input, not on the clock
             return inconclusive('slow: side-by-side wrapping of a line %d columns wide (quadratic cost), watchdog fired' % widest,
+                                counters=counters, sets=sets)
+        if '--max-syntax-highlighting-length' in args and args[args.index('--max-syntax-highlighting-length') + 1] == '0' and widest > 20000:
+            # the limit that keeps the syntax highlighter away from very long lines (default 400) has been switched off by the
+            # option set itself: syntect needs minutes for a line of several hundred thousand columns - finite, and asked for
+            return inconclusive('slow: syntax highlighting of a line %d columns wide with --max-syntax-highlighting-length 0, watchdog fired' % widest,
                                 counters=counters, sets=sets)
     if c is not None and c['kind'] == 'timeout':
         if len(data) < 200000:
